@@ -435,10 +435,13 @@ div_mpz(mpz_class& to, const mpz_class& x, const mpz_class& y,
     mpz_cdiv_q(to.get_mpz_t(), n, d);
     return V_LE;
   }
+  // Note: the destination may alias x: test divisibility before writing it.
+  const bool exact
+    = round_strict_relation(dir) && (mpz_divisible_p(n, d) != 0);
   if (round_down(dir)) {
     mpz_fdiv_q(to.get_mpz_t(), n, d);
     if (round_strict_relation(dir)) {
-      return (mpz_divisible_p(n, d) != 0) ? V_EQ : V_GT;
+      return exact ? V_EQ : V_GT;
     }
     return V_GE;
   }
@@ -446,7 +449,7 @@ div_mpz(mpz_class& to, const mpz_class& x, const mpz_class& y,
     PPL_ASSERT(round_up(dir));
     mpz_cdiv_q(to.get_mpz_t(), n, d);
     if (round_strict_relation(dir)) {
-      return (mpz_divisible_p(n, d) != 0) ? V_EQ : V_LT;
+      return exact ? V_EQ : V_LT;
     }
     return V_LE;
   }
@@ -526,10 +529,13 @@ div_2exp_mpz(mpz_class& to, const mpz_class& x, unsigned int exp,
     mpz_tdiv_q_2exp(to.get_mpz_t(), x.get_mpz_t(), exp);
     return V_LGE;
   }
+  // Note: the destination may alias x: test divisibility before writing it.
+  const bool exact
+    = round_strict_relation(dir) && (mpz_divisible_2exp_p(n, exp) != 0);
   if (round_down(dir)) {
     mpz_fdiv_q_2exp(to.get_mpz_t(), n, exp);
     if (round_strict_relation(dir)) {
-      return (mpz_divisible_2exp_p(n, exp) != 0) ? V_EQ : V_GT;
+      return exact ? V_EQ : V_GT;
     }
     return V_GE;
   }
@@ -537,7 +543,7 @@ div_2exp_mpz(mpz_class& to, const mpz_class& x, unsigned int exp,
     PPL_ASSERT(round_up(dir));
     mpz_cdiv_q_2exp(to.get_mpz_t(), n, exp);
     if (round_strict_relation(dir)) {
-      return (mpz_divisible_2exp_p(n, exp) != 0) ? V_EQ : V_LT;
+      return exact ? V_EQ : V_LT;
     }
     return V_LE;
   }
